@@ -160,3 +160,9 @@ Qed.
 Example fmt_wf_examples :
   fmt_wf 32 255 255 255 16 8 0 /\ fmt_wf 32 255 255 255 24 16 8 /\ fmt_wf 32 1023 1023 1023 20 10 0 /\ fmt_wf 16 31 63 31 11 5 0.
 Proof. repeat split; try reflexivity; try lia; try (right; right; reflexivity); try (right; left; reflexivity). Qed.
+
+Lemma cpix_ok_pix_ok m p : cpix_ok 4 m p -> pix_ok 4 p.
+Proof.
+  unfold cpix_ok, pix_ok. change (256 ^ Z.of_nat 4) with 4294967296.
+  destruct m as [|[|[|m]]]; unfold pix_ok; change (256 ^ Z.of_nat 4) with 4294967296; lia.
+Qed.
